@@ -97,6 +97,8 @@ def chk_field(case, note):
             v = frames.commb_ap_repeats(df, mb, head, 8 + (head >> 3) % 9)[1]
         msg = frames.tohex(v, 112, hc)
         for fname, fn in fn_pair(row):
+            if (mb0 ^ head) & 24 == 0:
+                variants.damaged_calls(fn, msg)   # the same reply cut short / too long was handed to this decoder before
             r = call(fn, msg)
             if r[0] != "ok":
                 return "%s(%s) raised %r" % (fname, msg, r[1:])
